@@ -19,6 +19,7 @@ import datetime
 import functools
 import itertools
 import random
+import numpy as np
 
 from mc.engine import Suite, Out
 
@@ -71,10 +72,10 @@ ZERO = datetime.timedelta(0)
 SEC = {'h': 3600, 'n': 60, 's': 1}
 MONTHS = {'m': 1, 'q': 3, 'y': 12}
 STR_UNITS = ['b', 'd', 'w', 'm', 'q', 'y', 'h', 'n', 's']
-OBJ_UNITS = ['int', 'td', 'tdx']                       # plain int, timedelta(days=n), a mixed timedelta
+OBJ_UNITS = ['int', 'td', 'tdx', 'npint']              # plain int, timedelta(days=n), a mixed timedelta, a numpy integer (np.int64 / np.int32 in turn)
 ALL_UNITS = STR_UNITS + OBJ_UNITS
 INTRADAY_UNITS = ['b', 'd', 'w', 'h', 'n', 's'] + OBJ_UNITS
-FIXED_UNITS = {'d', 'w', 'h', 'n', 's', 'int', 'td', 'tdx'}
+FIXED_UNITS = {'d', 'w', 'h', 'n', 's', 'int', 'td', 'tdx', 'npint'}
 NAMED = {'spot': 0, 'on': 1, 'o/n': 1, 'tn': 2, 't/n': 2, 'sn': 3, 's/n': 3}
 NAMED_SPELLINGS = [(s, n) for k, n in sorted(NAMED.items()) for s in (k, k.upper())] + [('Spot', 0), ('Tn', 2)]
 
@@ -134,7 +135,7 @@ def expected(t, unit, ns):
     if unit == 'b':
         tab = ref_b(i)
         js = [tab[n + NMAX] for n in ns]
-    elif unit in ('d', 'int', 'td'):
+    elif unit in ('d', 'int', 'td', 'npint'):
         js = [i + n for n in ns]
     elif unit == 'w':
         js = [i + 7 * n for n in ns]
@@ -165,6 +166,8 @@ def spell(unit, n, style=0):
 def arg(unit, n):
     if unit == 'int':
         return n
+    if unit == 'npint':
+        return np.int64(n) if n % 2 == 0 else np.int32(n)
     if unit == 'td':
         return datetime.timedelta(days=n)
     if unit == 'tdx':
